@@ -72,6 +72,9 @@ type Member struct {
 // This is 其name.
 type This struct{ Name string }
 
+// Group is { e }: explicit grouping, transparent for the tree.
+type Group struct{ E Expr }
+
 // Assign is target = val  (target: Var, Index, Member, This)
 type Assign struct {
 	Target Expr
